@@ -198,7 +198,7 @@ impl Worker {
             (old(self).ongoing_batch.task.terminated && final(self).ongoing_batch.range.is_some()
                 && old(self).store.pruned@.contains(final(self).ongoing_batch.range.unwrap()@.end + 1))
               ==> time_of(final(self).ongoing_batch.range.unwrap()@.end + 1) > (if clock() >= old(self).sampling_window.d { (clock() - old(self).sampling_window.d) as u64 } else { 0u64 }),
-//@sub E9-op "pruned_ranges + &store_ranges" => "pruned_ranges.add(&store_ranges)"
+//@binops
 //@sub E9-op "(store_ranges - sampled_ranges).len()" => "store_ranges.sub__val(sampled_ranges).len()"
 //@sub E15 "|height| *next_batch.end() <= height" => "|height: u64| -> (b: bool) ensures b == (next_batch@.end <= height) { *next_batch.end() <= height }"
 //@sub E9 "next_batch.clone()" => "vx_clone(&next_batch)"
